@@ -16,7 +16,7 @@ import (
 func init() {
 	Register(&Prop{ID: "C18",
 		Meta: Meta{Stages: 2, Level: "exploration",
-			Rule:       "real Client+Serve with a cooperative plugin; a drawn history of 0-6 steps from {dispense, call, brokered connection host->plugin, brokered connection plugin->host, stdio write, ping, streaming call} x protocol {net/rpc, gRPC, gRPC+mux} x TLS {none, AutoMTLS} x launch {command, custom runner, custom runner with address translation} x UnixSocketConfig {none, empty, own TempDir}; every configuration with the empty and the full history enumerated, seeded histories and schedule noise in the shutdown paths on top; plus Kill RACING an operation in flight, systematically: stage 0 profiles every go-plugin statement a host goroutine passes during {host Accept, brokered pair in both directions, Dispense, call, Ping, unmatched Dial}, stage 1 runs one case per (statement, occurrence) in which another goroutine calls Kill exactly while the operation is at that statement. Oracle after Kill returned and the plugin exited by itself: the file system holds no socket file or directory created by the host or the plugin process that was not there before (main listener, brokered listeners on both sides, the runner's plugin-dir*), and 10 simulated seconds later no goroutine labelled with the host process is inside a go-plugin function",
+			Rule:       "real Client+Serve with a cooperative plugin; a drawn history of 0-6 steps from {dispense, call, brokered connection host->plugin, brokered connection plugin->host, stdio write, ping, streaming call} x protocol {net/rpc, gRPC, gRPC+mux} x TLS {none, AutoMTLS} x launch {command, custom runner, custom runner with address translation} x UnixSocketConfig {none, empty, own TempDir}; every configuration with the empty and the full history enumerated, seeded histories and schedule noise in the shutdown paths on top; plus Kill RACING an operation in flight, systematically: stage 0 profiles every go-plugin statement a host goroutine passes during {host Accept, brokered pair in both directions, Dispense, call, Ping, unmatched Dial}, stage 1 runs one case per (statement, occurrence) in which another goroutine calls Kill exactly while the operation is at that statement; plus TWO hosts (the launching and a reattached one) Kill the same gRPC plugin 0-600 us apart while it holds three brokered listeners. Oracle after Kill returned and the plugin exited by itself: the file system holds no socket file or directory created by the host or the plugin process that was not there before (main listener, brokered listeners on both sides, the runner's plugin-dir*), and 10 simulated seconds later no goroutine labelled with the host process is inside a go-plugin function",
 			Exhaustive: "protocol x TLS x launch x {empty history, full history}"},
 		Plan: func(tier string, seed uint64, stage int, prev []*h.Result) []*k.Spec {
 			if stage > 0 {
